@@ -298,7 +298,7 @@ def _cls_prefix(c):
     return "_".join(parts[:2]) if parts[0] in ("mut", "rand", "image", "view", "trunc", "pair") else cl
 
 
-C02_CONST_T = {"Fam": '"C02"', "PayLens": "{0, 1, 5}", "PadSizes": "{0, 3, 255}", "CsrcCounts": "{0, 2, 15}", "Stride": "3", "Rich": "TRUE"}
+C02_CONST_T = {"Fam": '"C02"', "PayLens": "{0, 1, 5}", "PadSizes": "{0, 3}", "CsrcCounts": "{0, 2, 15}", "Stride": "4", "Rich": "TRUE"}
 prop(dict(
     id="C02", fam="C02",
     mc=[("RtpMC.tla", "RtpMC.cfg", {"quick": {"KnobSet": '"some"', "PayLens": "{0, 5}", "PadSizes": "{0, 3}", "CsrcCounts": "{0, 2}"},
